@@ -605,6 +605,10 @@ def _worker(job):
             t0 = time.time()
             try:
                 paths = decoders.explore_decoder(sess, name, h)
+                if not paths:
+                    out.append(rec('%s/%s.%s/cover' % (pid, mod, name), 'engine-error', '', 0, fq,
+                                   'no feasible path: window/parser hypotheses are contradictory'))
+                    continue
                 if pid == 'C17':
                     def explore(other, mod=mod, name=name):
                         for m2, h2 in tabs.get(other, []):
